@@ -61,6 +61,12 @@ def directed_units(rng, ws, n_each):
             else:
                 src = 'empty @is_you(int a, int b) { int[] v = [a, 1]; write("<"); v[0] %s= b; write(v[0]); write(">"); }\n' % op
             units.append((src, [Cfg((str(a), str(b)), w, 100, False) for a in (7, -7, 0, 32767, -32768) for b in (0, 1, -1, 2, -2, 256, -32768) for w in ws]))
+    # the same divisor location holding different values at successive divisions in one function
+    for decl, kind in (('int d = a;', 'local'), ('', 'global')):
+        pre = 'int d = 1;\n' if kind == 'global' else ''
+        body = ('%s write("<"); write(100 / d); write(\' \'); d = b; write(100 %% d); write(\' \'); d = a; write(7 / d); write(\' \'); d = d - a; write(5 / d); write(">");' % (decl if kind == 'local' else 'd = a;'))
+        units.append((pre + 'empty @is_you(int a, int b) { ' + body + ' }\n', [Cfg((str(a), str(b)), w, 100, False) for a in (1, 3, -2) for b in (0, 2, 1) for w in ws]))
+    units.append(('int d = 5;\nint upd(int v) { d = v; return 1; }\nempty @is_you(int a, int b) { write("<"); write(10 / d); write(upd(b) + 20 / d); write(" "); write(30 % d); write(">"); }\n', [Cfg((str(a), str(b)), w, 100, False) for a in (1,) for b in (0, 2) for w in ws]))
     # dynamic lengths
     for el in ('int', 'byte', 'bool', 'string'):
         src = 'empty @is_you(int n, int j) { write("<"); %s a[n]; write(a.length); write(">"); }\n' % el
